@@ -106,7 +106,25 @@ def variant_names(body, g):
     return names
 
 
+def _len_call(e):
+    """(collection expr, 'T::is_empty') if e is a call `T::len(c)`"""
+    if isinstance(e, tuple) and e and e[0] == 'call' and len(e[3]) == 1:
+        nm = short(e[2] or e[1]) or ''
+        if nm.endswith('::len'):
+            return e[3][0], nm[:-len('len')] + 'is_empty'
+    return None
+
+
 def rel(op, a, b):
+    # emptiness tests written with len(): `c.len() == 0`, `c.len() != 0`, `c.len() > 0`, `c.len() < 1`,
+    # `c.len() >= 1` and their mirrored forms are the predicate `c.is_empty()` (one normal form for both spellings)
+    for x, y, o in ((a, b, op), (b, a, {'Lt': 'Gt', 'Gt': 'Lt', 'Le': 'Ge', 'Ge': 'Le'}.get(op, op))):
+        lc = _len_call(x)
+        if lc and isinstance(y, tuple) and y and y[0] == 'const' and y[1] in (0, 1):
+            truth = {('Eq', 0): True, ('Ne', 0): False, ('Gt', 0): False, ('Le', 0): True,
+                     ('Lt', 1): True, ('Ge', 1): False}.get((o, y[1]))
+            if truth is not None:
+                return ('pred', lc[1], (lc[0],), truth)
     if op == 'Gt':
         return ('rel', 'lt', b, a)
     if op == 'Ge':
